@@ -226,6 +226,11 @@ def gen_case(rng, profile):
     base = rng.choice([0, 0, 0, 0, 0, 0, 1 << 32, (1 << 63) - 500])
     fb = base + rng.choice([0, 0, 3, 3, 10, 40])
     z = rng.below(12)
+    if profile == "backlog" and rng.chance(2, 3):
+        # the boundary states of the durable range: nothing stored yet (at 0 / at first_block), one block stored
+        base = rng.choice([0, 0, 0, 1 << 32])
+        fb = base + rng.choice([0, 0, 0, 3])
+        z = rng.choice([0, 0, 4, 6])
     if z < 4:
         init = [fb, None]
     elif z < 6:
@@ -307,6 +312,25 @@ def gen_case(rng, profile):
 
     if profile == "long":
         nops = rng.range(130, 260)
+    elif profile == "backlog":
+        # directed: more than CACHE_CAPACITY accepted blocks while the durable range does not move, then
+        # every queued number (oldest first) is read back; then persistence catches up and they are read again
+        if rng.chance(1, 3):
+            c["ops"].append({"op": "gate", "k": rng.choice([0, 0, 1, 5])})
+        start = t.qn
+        for _ in range(CAP + rng.range(1, 40)):
+            queue(good(t.qn))
+            if rng.chance(1, 25):
+                queue(good(t.qn + 1))            # parked, resumed by the next in-order block
+        picks = [start, start + 1, start + rng.below(CAP), t.qn - CAP - 1, t.qn - CAP, t.qn - CAP + 1, t.qn - 1]
+        c["ops"].append({"op": "read", "ns": [max(0, n) for n in picks]})
+        if rng.chance(2, 3):
+            c["ops"].append({"op": "gate", "k": -1})
+            ps = [[t.env[0], rng.range(start, t.qn - 1)]]
+            t.persist(ps[0])
+            c["ops"].append({"op": "persist", "ps": ps})
+            c["ops"].append({"op": "read", "ns": [max(0, n) for n in picks]})
+        nops = len(c["ops"]) + rng.range(4, 30)
     else:
         nops = rng.range(8, 70)
     lag_mode = rng.below(4)   # 0: persistence follows closely, 1: lags, 2: gate closed a lot, 3: mixed
@@ -477,6 +501,8 @@ def run(rep):
         raise common.MachineryError("cargo build failed: " + out[-2000:])
     nshort, nlong = (150, 18) if tier == "quick" else (7000, 600)
     cases = corpus_cases()
+    for i in range(10 if tier == "quick" else 300):
+        cases.append(gen_case(rng.fork(), "backlog"))
     for i in range(nshort + nlong):
         cases.append(gen_case(rng.fork(), "long" if i % ((nshort + nlong) // nlong) == 0 else "short"))
     outs = run_impl_all(cases)
